@@ -66,6 +66,11 @@ CHECKS = {
             "interleaving signatures observed. Held = all observed histories satisfy the checker.",
             "No explicit-state model (second clause of the quantifier) - not decidable by this technique; no externally killed workers; wall-clock only as watchdog (inconclusive) "
             "except a 60 s no-progress bound for termination.", "4/C12"),
+    "C20": ("fresh-process differential monitor + deep snapshot invariants (inputs, compiled rulebook signature) around every call in job sequences",
+            "Jobs from the fixture corpus (with the hardware families of the same vendor), hand-written pairs for the rule-mutating logics and ACL variants are executed inside "
+            "random sequences in one process (as a pool worker does) and, each, alone in a fresh interpreter; canonical results (diff, command paths, ordered config) must be "
+            "equal, old/new trees and the structural signature of the cached compiled rulebook must be identical before and after every call, and a repeated call must agree.",
+            "PYTHONHASHSEED fixed on both sides. The structural rulebook signature is the one of C18.", "4/C20"),
 }
 
 NOT_BUILT = "check not built yet in this round (runtime-monitoring design exists in DESIGN.md section 4)"
